@@ -31,7 +31,7 @@ def discrete_grid_pos_to_id(x: int, y: int = 0, width: int = 0, z: int = 0, heig
     int
         The unique ID.
     """
-    return (z * width * height) + (y * width) + x
+    return (z * max(width, 1) * max(height, 1)) + (y * max(width, 1)) + x
 
 
 @deprecated(reason='For not meeting standard python naming conventions. Use "discrete_grid_pos_to_id" instead.')
